@@ -395,11 +395,26 @@ pub fn all_cases(thorough: bool) -> Vec<BlockCase> {
         }
     }
     if thorough {
-        // sequences of four over the base alphabet
-        let q = quick_k;
+        // sequences of four over the full alphabet
+        let q = k; // the full (extended) alphabet
         for i in 0..q * q * q * q {
             let idx = [i / (q * q * q), (i / (q * q)) % q, (i / q) % q, i % q];
             cases.push(BlockCase { label: format!("quad {idx:?}"), defs: idx.iter().map(|x| alpha[*x].clone()).collect(), jmps: vec![] });
+        }
+        // sequences of five over the 16-letter base alphabet
+        let core: Vec<pc::Def> = (0..quick_k).map(|i| alpha[i].clone()).collect();
+        let c = core.len();
+        for i in 0..c.pow(5) {
+            let idx = [i / c.pow(4), (i / c.pow(3)) % c, (i / c.pow(2)) % c, (i / c) % c, i % c];
+            cases.push(BlockCase { label: format!("quint {idx:?}"), defs: idx.iter().map(|x| core[*x].clone()).collect(), jmps: vec![] });
+        }
+        // every single instruction followed by every jump case that has no def of its own
+        let singles = single_instructions();
+        let jumps: Vec<BlockCase> = jump_cases(true).into_iter().filter(|j| j.defs.is_empty() && !j.jmps.is_empty()).collect();
+        for (i, d) in singles.iter().enumerate().step_by(7) {
+            for (k, j) in jumps.iter().enumerate() {
+                cases.push(BlockCase { label: format!("single+jump #{i},{k}"), defs: vec![d.clone()], jmps: j.jmps.clone() });
+            }
         }
     }
     if !thorough {
